@@ -93,6 +93,48 @@ def hashAll (H : Bytes → Bytes) (s : St) : St × String :=
 
 def verLt (a b : Ver) : Bool := a == Ver.v0 && b == Ver.v1
 
+/-! ### the panic of `recordAllDeleted` (reachable only after a parent write: known-finding region) -/
+
+/-- `recordAllDeleted(n, …)` panics: some node it visits has no Merkle value -/
+def radPanics (hp : Heap) : Nat → Nat → Bool
+  | 0, _ => false
+  | f + 1, a =>
+    let n := hp.get a
+    let l := (n.mv.getD []).length
+    if l == 0 then true
+    else if l < 32 then false
+    else if !n.isBranch then false
+    else (List.finRange 16).any (fun i =>
+      match n.kids i with
+      | some c => radPanics hp f c
+      | none => false)
+
+/-- the node at which `clearPrefixAtNode` calls `recordAllDeleted` (its partial key has the prefix) -/
+def clrTarget (hp : Heap) : Nat → Option Nat → Nibs → Option Nat
+  | _, none, _ => none
+  | 0, some _, _ => none
+  | f + 1, some a, pre =>
+    let n := hp.get a
+    if pre.isPrefixOf n.pk then some a
+    else if !n.isBranch then none
+    else if pre.length = n.pk.length + 1 && pre.dropLast == n.pk then none
+    else if pre.length ≤ n.pk.length || lcpLen n.pk pre < n.pk.length then none
+    else
+      match pre.drop n.pk.length with
+      | i :: rest => clrTarget hp f (n.kids i) rest
+      | [] => none
+
+/-- `t.ClearPrefix(p)` panics in `recordAllDeleted` -/
+def clrPanics (H : Bytes → Bytes) (hp : Heap) (t : Handle) (p : Bytes) : Bool :=
+  let target :=
+    if p.length = 0 then t.root
+    else
+      let pre := trimZero (keyLEToNibbles p)
+      clrTarget hp (pre.length + 1) t.root pre
+  match target with
+  | none => false
+  | some a => radPanics (ensureMV (t.ctx H) hp (some a)) 64 a
+
 /-- one operation: new state, the result token of the op, and whether the Go code panicked.
     `deep` selects the specification (`snap` = deep copy). -/
 def stepOp (H : Bytes → Bytes) (deep : Bool) (s : St) : Op → St × String × Bool
@@ -107,7 +149,9 @@ def stepOp (H : Bytes → Bytes) (deep : Bool) (s : St) : Op → St × String ×
   | .clr h p =>
     match s.handle? h with
     | none => (s, "bad-op", false)
-    | some x => let r := clearPrefix H s.hp x.t p; (s.setHandle r.1 h x r.2, "ok", false)
+    | some x =>
+      if clrPanics H s.hp x.t p then (s, "panic", true)
+      else let r := clearPrefix H s.hp x.t p; (s.setHandle r.1 h x r.2, "ok", false)
   | .clrl h p n =>
     match s.handle? h with
     | none => (s, "bad-op", false)
